@@ -816,11 +816,12 @@ Proof. destruct a, b; intros H; try discriminate; [apply String.eqb_eq in H; con
 
 Lemma item_eqb_eq a b : item_eqb_shallow a b = true -> a = b.
 Proof.
-  destruct a as [i1 n1 k1 s1 w1 f1 r1], b as [i2 n2 k2 s2 w2 f2 r2]. unfold item_eqb_shallow. cbn [it_id it_name it_kind it_skip it_wire it_fmt it_range].
-  intros H. do 6 (apply andb_prop in H as [H ?]).
+  destruct a as [i1 n1 rw1 k1 s1 w1 f1 r1], b as [i2 n2 rw2 k2 s2 w2 f2 r2]. unfold item_eqb_shallow. cbn [it_id it_name it_raw it_kind it_skip it_wire it_fmt it_range].
+  intros H. do 7 (apply andb_prop in H as [H ?]).
   assert (i1 = i2).
   { destruct i1, i2. unfold gid_eqb in H. cbn in H. apply andb_prop in H as [Hb Ha]. apply String.eqb_eq in Ha. apply N.eqb_eq in Hb. congruence. }
   assert (n1 = n2) by (apply opt_str_eq; assumption).
+  assert (rw1 = rw2) by (apply opt_str_eq; assumption).
   assert (s1 = s2) by (apply Bool.eqb_prop; assumption).
   assert (w1 = w2) by (apply opt_str_eq; assumption).
   assert (f1 = f2) by (destruct f1, f2; try discriminate; [f_equal; apply fmt_eqb_eq; assumption | reflexivity]).
